@@ -100,7 +100,9 @@ class XferWorld:
     def start_send(self, cwd, what=None, text=None, code="1-abc", extra=(), channel="arg"):
         """channel: how a text reaches the command - "arg" (--text TEXT), "stdin" (--text - : the caller supplies sys.stdin),
         "prompt" (no --text and nothing to send: the command asks with input(); the caller supplies builtins.input)"""
-        argv = ["--relay-url", mbworld.RELAY_URL, "--transit-helper", "", "send", "--hide-progress", "--code", code]
+        argv = ["--relay-url", mbworld.RELAY_URL, "--transit-helper", "", "send", "--hide-progress"]
+        if code is not None:             # (None: the command allocates a code, or -0 is among the extras)
+            argv += ["--code", code]
         argv += list(extra)
         if text is not None and channel == "stdin":
             argv += ["--text", "-"]
@@ -124,7 +126,7 @@ class XferWorld:
             argv += ["--accept-file"]
         if output_file is not None:
             argv += ["--output-file", output_file]
-        argv += list(extra) + [code]
+        argv += list(extra) + ([code] if code is not None else [])
         cfg = config(*argv)
         cfg.cwd = cwd
         cfg.stdout, cfg.stderr = io.StringIO(), io.StringIO()
